@@ -4,6 +4,8 @@ import ALV.Spec.C11
 import ALV.Model.C11Hist
 import ALV.Model.C11Float
 import ALV.Model.C11Call
+import ALV.Model.C11LevFloat
+import ALV.Model.C11Apply
 namespace ALV.Driver.C11
 open ALV ALV.J ALV.C11 ALV.C11.Hist
 
@@ -33,10 +35,37 @@ def fksJson (r : List F64 × Bool) : Json :=
   Json.mkObj [("bits", bitsJson r.1), ("raised", Json.bool r.2),
               ("finite", Json.bool (r.1.all F64.isFinite))]
 
+def flevJson : Option (List F64 × F64 × List F64) → Json
+  | none => Json.mkObj [("err", Json.str "ParCorError")]
+  | some (a, e, ks) =>
+    Json.mkObj [("a", bitsJson a), ("error", natToJson e.bits.toNat), ("ks", bitsJson ks),
+                ("finite", Json.bool ((e :: a ++ ks).all F64.isFinite))]
+
 def callResJson : CallRes Rat → Json
   | .valueError => Json.mkObj [("err", Json.str "ValueError")]
   | .zeroDiv => Json.mkObj [("err", Json.str "ZeroDivisionError")]
   | .ok ks b => ksJson (ks, b)
+
+def getArgObj (j : Json) : Except String (ArgObj Rat) := do
+  match (← getStr (← field j "kind")) with
+  | "filt" => pure (.filt (← getInt (← field j "num_lo")) (← getList getRat (← field j "num"))
+                      (← getInt (← field j "den_lo")) (← getList getRat (← field j "den")))
+  | "rational" => pure .rational
+  | "stream" => pure .stream
+  | "other" => pure .other
+  | s => throw s!"C11: object kind {s}"
+
+def excJson : Exc → Json
+  | .typeError => Json.str "TypeError"
+  | .attributeError => Json.str "AttributeError"
+  | .valueError => Json.str "ValueError"
+  | .zeroDivisionError => Json.str "ZeroDivisionError"
+
+def applyResJson : ApplyRes Rat → Json
+  | .atCall e => Json.mkObj [("when", Json.str "call"), ("err", excJson e)]
+  | .atNext e => Json.mkObj [("when", Json.str "next"), ("err", excJson e)]
+  | .gen ks b => Json.mkObj [("when", Json.str "gen"), ("ks", rats ks), ("raised", Json.bool b)]
+  | .verdict b => Json.mkObj [("when", Json.str "verdict"), ("verdict", Json.bool b)]
 
 /-! ### payloads shared by the single-call entries and by the steps of a history -/
 
@@ -193,6 +222,35 @@ def handle (entry : String) (j : Json) : Except String Json := do
     -- the squaring function of the twin, for the libm identity check of the harness
     let xs ← getList getBits (← field j "bits")
     pure <| Json.mkObj [("pow", bitsJson (xs.map F64.sqPow)), ("mul", bitsJson (xs.map (fun x => x * x)))]
+  | "flevinson" =>
+    -- levinson_durbin(r, order) on binary64 autocorrelation data: the bit-exact twin (sum = CPython's
+    -- compensated sum), the generic model verbatim (sum = left fold), and the exact recursion with
+    -- the specification's error on the rational values of the same numbers
+    let r ← getList getBits (← field j "bits")
+    let order ← getNat (← field j "order")
+    let q := r.map f64ToRat
+    pure <| Json.mkObj [
+      ("twin", flevJson (levinsonF64 r order)), ("twin_fold", flevJson (levinsonF64Fold r order)),
+      ("input_finite", Json.bool (r.all F64.isFinite)),
+      ("exact", match levinson q order with
+        | none => Json.mkObj [("err", Json.str "ParCorError")]
+        | some (a, e, ks) => Json.mkObj [("a", rats a), ("error", ratToJson e), ("ks", rats ks),
+            ("spec_error", ratToJson (errorSpec (q.headD 0) ks)), ("spec_a", rats (stepUp ks))])]
+  | "fbits" =>
+    -- the input decoder followed by the output encoder (round trip of bit patterns)
+    let xs ← getList getBits (← field j "bits")
+    pure <| Json.mkObj [("bits", bitsJson xs), ("finite", arr (fun (x : F64) => Json.bool x.isFinite) xs)]
+  | "fsum" =>
+    -- the summation function of the twin, for the identity check of the harness
+    let ls ← getList (getList getBits) (← field j "lists")
+    pure <| Json.mkObj [("sum", bitsJson (ls.map (sumPyG F64.isFinite))), ("fold", bitsJson (ls.map lsum))]
+  | "apply" =>
+    -- the call expressions parcor(*args, **kwargs) / parcor_stable(*args, **kwargs)
+    let args ← getList getArgObj (← field j "args")
+    let kwargs ← getList (fun p => do
+      pure ((← getStr (← field p "name")), (← getArgObj (← field p "obj")))) (← field j "kwargs")
+    pure <| Json.mkObj [("parcor", applyResJson (parcorApply args kwargs)),
+                        ("stable", applyResJson (stableApply args kwargs))]
   | "call" =>
     -- parcor / parcor_stable on ZFilter(num, den) with Laurent numerator and denominator
     let numLo ← getInt (← field j "num_lo")
